@@ -21,7 +21,7 @@ def syncNextMap : PyOut → PyOut
 /-- async `GetNextIter.__anext__` keeps `StopAsyncIteration` (async protocol); timeouts come from `wait_for` -/
 def asyncNextMap : PyOut → PyOut := id
 
-abbrev Item := Bytes × PyScalar
+abbrev Item := Bytes × Bytes × PyScalar
 
 /-- state of `GetBulkIter`: the buffered list (with the `None` stop marker) -/
 structure BulkIter where
